@@ -246,7 +246,7 @@ pub fn deep_value_programs(quick: bool) -> Vec<(String, String)> {
     ];
     let ks: &[usize] = if quick { &DEEP_K_QUICK } else { &DEEP_K };
     let tails: &[&str] = if quick { &tails_q } else { &tails_t };
-    let mut out = Vec::new();
+    let mut out = string_programs(quick);
     for &k in ks {
         let builders = [format!("reduce range(0; {k}) as $i (0; [.])"), format!("reduce range(0; {k}) as $i (0; {{a: .}})"), format!("last(limit({k}; 0 | recurse([.])))"), format!("[limit({k}; repeat(0))] | reduce .[] as $i (null; [.])")];
         for (bi, b) in builders.iter().enumerate() {
@@ -256,6 +256,43 @@ pub fn deep_value_programs(quick: bool) -> Vec<(String, String)> {
             for t in tails {
                 out.push((format!("deep{bi}/{k}"), format!("{b} | {t}")));
             }
+        }
+    }
+    out
+}
+
+/// String builtins over strings with multi-byte characters: every (subject, argument) pair of a small
+/// alphabet that mixes ASCII, 2-, 3- and 4-byte characters, the empty string and repeated characters.
+/// Byte-offset arithmetic on `str` (resuming a search one *byte* later, slicing at a computed byte
+/// position) only goes wrong when a character boundary is crossed, which no ASCII-only template shows.
+/// Label `str<k>/0` (the `/0` keeps the `<family>/<depth>` label shape of the deep-value programs).
+pub fn string_programs(quick: bool) -> Vec<(String, String)> {
+    let strs_q = ["", "a", "\u{e9}", "a\u{e9}b", "\u{e9}\u{e9}", "\u{1F600}", "a\u{1F600}", "\u{20ac}x\u{20ac}"];
+    let strs_t = ["", "a", "ab", "aa", "\u{e9}", "a\u{e9}", "\u{e9}a", "a\u{e9}b", "\u{e9}\u{e9}", "\u{e9}a\u{e9}", "\u{1F600}", "a\u{1F600}", "\u{1F600}\u{1F600}", "\u{20ac}x\u{20ac}", "\u{0}\u{e9}", " \u{e9} "];
+    let strs: &[&str] = if quick { &strs_q } else { &strs_t };
+    // #S = subject literal, #A = argument literal
+    let binary = [
+        "#S | indices(#A)", "#S | index(#A)", "#S | rindex(#A)", "#S | split(#A)", "#S / #A", "#S | ltrimstr(#A)", "#S | rtrimstr(#A)", "#S | startswith(#A)", "#S | endswith(#A)",
+        "#S | contains(#A)", "#S | inside(#A)", "#S | join(#A)?", "[#S, #A] | join(#S)", "#S | test(#A)?", "#S | [match(#A; \"g\")]? | length", "#S | sub(#A; #S)?", "#S | gsub(#A; \"x\")?",
+        "#S | splits(#A)?", "#S | ascii_downcase | indices(#A)", "#S + #A | indices(#A)", "[#S] | index([#A])", "#S | ltrimstr(#A) | rtrimstr(#A) | length",
+    ];
+    let unary = [
+        "#S | explode | implode", "#S | [.[0:1], .[1:], .[:-1], .[-1:]]", "#S | .[1:2]", "#S | ascii_downcase", "#S | ascii_upcase", "#S | ltrim, rtrim, trim", "#S | utf8bytelength", "#S | length",
+        "#S | @base64 | @base64d", "#S | @uri", "#S | @html", "#S | @sh", "#S | @json | fromjson", "#S | tojson | fromjson", "#S | ascii?", "#S | [limit(5; splits(\"\"))]?", "#S | test(\"\")?", "#S | indices(\"\")",
+        "#S | . * 3 | length", "#S | [., .] | sort | unique", "#S | tostring | tonumber?", "{(#S): 1} | keys", "{(#S): 1} | to_entries | from_entries", "#S | @text \"<\\(.)>\"?", "#S | [scan(\".\")]? | length",
+    ];
+    let lit = |t: &str| serde_json::to_string(t).unwrap();
+    let mut out = Vec::new();
+    for (k, t) in binary.iter().enumerate() {
+        for a in strs {
+            for b in strs {
+                out.push((format!("str{k}/0"), t.replace("#S", &lit(a)).replace("#A", &lit(b))));
+            }
+        }
+    }
+    for (k, t) in unary.iter().enumerate() {
+        for a in strs {
+            out.push((format!("stru{k}/0"), t.replace("#S", &lit(a))));
         }
     }
     out
